@@ -29,7 +29,9 @@ ONE_LINERS = [
     ("extern \"C\" int g%d();", "on_function"), ("#include <i%d.h>", "on_include"), ("template <typename T> void h%d(T t);", "on_function"),
     ("static int s%d = %d, s2_%d;", "on_variable"),
 ]
-FILLER = ["", "", "\n", "// comment\n", "/* multi\n line\n comment */\n", "\n\n\n", "/* one */\n", "   \n", "// a\n// b\n"]
+FILLER = ["", "", "\n", "// comment\n", "/* multi\n line\n comment */\n", "\n\n\n", "/* one */\n", "   \n", "// a\n// b\n",
+          # code on the closing line of a multi-line comment, the comment starting after indentation, a line comment or code
+          "  /* x\n y */ ", "// h\n/* m\n m */ ", "int qq; /* a\n b\n c */ ", "\t/* i\n j\n k\n l */", "int rr; /* p\n q */\n  /* s\n t */ "]
 
 
 def build(rng, n):
@@ -130,7 +132,7 @@ def run(ctx):
                 text += form % (N, fn)
                 cur_file, cur_line = fn, N
             for _ in range(rng.randint(1, 3)):
-                fill = rng.choice(["", "\n", "/* a\n b */\n", "// c\n"])
+                fill = rng.choice(["", "\n", "/* a\n b */\n", "// c\n", "  /* a\n b */ ", "int qq; /* a\n b\n c */ "])
                 text += fill
                 cur_line += fill.count("\n")
                 text += "int d%d;\n" % idx
@@ -139,6 +141,7 @@ def run(ctx):
                 cur_line += 1
         r, locs = locs_of(text)
         got = [(e["payload"]["name"]["segments"][0]["name"], l[0], l[1]) for c, l, e in locs if c == "on_variable"]
+        got = [g for g in got if g[0].startswith("d")]   # (the fillers declare `qq` themselves)
         if got != expect:
             dfails.append({"input": text, "diff": "locations after #line: got %s expected %s" % (got[:4], expect[:4])})
         elif len(corr_texts) < ctx.budget(300, 5000):
@@ -148,7 +151,7 @@ def run(ctx):
     efails = []
     for _ in range(ctx.budget(100, 3000)):
         k = rng.randint(0, 12)
-        pre = "".join(rng.choice(["int a%d;\n" % i, "/* m\n m */\n", "\n", "// c\n"]) for i in range(k))
+        pre = "".join(rng.choice(["int a%d;\n" % i, "/* m\n m */\n", "\n", "// c\n", "int qq; /* m\n m */ ", "  /* m\n m\n m */ "]) for i in range(k))
         bad = rng.choice(["int $x;", "int y = 08;", "char c = 'abcdef';", "int `z;", "const char* s = \"a\\%b\";", "#if 1", "#define Q 2", "int w = @;"])
         text = pre + bad + "\nint after;\n"
         want = pre.count("\n") + 1
